@@ -371,7 +371,38 @@ def directed():
                   "seed": 1, "world": {"quantizers": [
                       {"cls": spec["cls"], "kw": kw, "shape": shape}]},
                   "ops": ops})
+  for i, spec in enumerate(_grouping_worlds()):
+    ops = []
+    for j, t in enumerate(GROUP_TENSORS):
+      ops.append({"k": "CALL", "q": 0, "t": t, "sub": j})
+      ops.append({"k": "READ_SCALE", "q": 0})
+    out.append({"label": "directed:grouping:%d:%s" % (i, json.dumps(
+        spec["kw"], sort_keys=True)), "seed": 1,
+                "world": {"quantizers": [spec]}, "ops": ops})
   return out
+
+
+def _grouping_worlds():
+  """List-valued scale_axis with per-axis elements_per_scale, several
+  multi-element groups along an axis (1 < eps < dim)."""
+  out = []
+  cases = [([4, 6], [0, 1], [2, 3]), ([4, 6], [0, 1], 2),
+           ([2, 4, 6], [1, 2], [2, 2]), ([2, 4, 6, 8], [1, 3], [2, 4]),
+           ([2, 4, 6, 8], [0, 1, 3], [2, 2, 1]), ([1, 4, 4, 8], [2, 3], 2),
+           ([4, 6], 1, 2), ([2, 4, 6], 0, 1)]
+  for shape, ax, eps in cases:
+    for alpha in ("auto", "auto_po2"):
+      for u01 in (False, True):
+        kw = {"alpha": alpha, "scale_axis": ax, "elements_per_scale": eps}
+        if u01:
+          kw["use_01"] = True
+        out.append({"cls": "binary", "kw": kw, "shape": shape})
+  return out
+
+
+GROUP_TENSORS = [{"kind": "gauss", "seed": 61, "mag": 1.0},
+                 {"kind": "mixed", "seed": 62, "mag": 4.0},
+                 {"kind": "zero_channel", "seed": 63, "mag": 2.0}]
 
 
 def simplify(scn):
